@@ -146,7 +146,11 @@ func concScenario(name string, scripts [][]string, preload []string, bound int, 
 					c.Fail("exactly-one-new", "C11/conc/preloaded-new", "preloaded value %s reported new: %s", o.val, sb.String())
 				}
 			}
-			ents, bij := replayfilter.VerifDump(f)
+			ents, bij, avail := replayfilter.VerifDump(f)
+			if !avail || !replayfilter.VerifAvailable(f) {
+				c.Count("final_states_not_readable", 1)
+				return
+			}
 			if !bij {
 				c.Fail("bijection", "C11/conc/bijection", "map and fifo out of bijection after %s", sb.String())
 			}
